@@ -145,6 +145,58 @@ for _k in KINDS:
     _mk_single(_k)
 
 
+def _mk_formatting(kind):
+    @obligation("C14", f"roundtrip.number-formatting.{kind}", functions=F, max_paths={"quick": 3000, "thorough": 20000},
+                bounds=f"{kind} trajectory; three state values range over [-1, 1] and [-1e17, 1e17] under the repr contract of str(float) (positional / "
+                       "exponent notation decided by magnitude), so that every formatting branch of the writer is exercised; the other values as before")
+    def ob(V):
+        import builtins
+
+        import commonroad.common.solution as sol_mod
+        from symex import fmt
+
+        warnings.filterwarnings("ignore")
+        keep = sol_mod.__dict__.get("str", None)
+        sol_mod.str = fmt.sym_str if V.symbolic else builtins.str
+        try:
+            val0, vals = make_values(V, "", kind)
+            fields = [f for f in StateFields[kind].value if f not in ("time_step",)]
+            special = {}
+            names = (["x", "y"] if "position" in fields else []) + [f for f in fields if f != "position"]
+            for j, f in enumerate(names[:3]):
+                special[(0, f)] = V.real(f"fmt_{f}", -1.0, 1.0) if j < 2 else V.real(f"fmt_{f}", -1e17, 1e17)
+
+            def val(i, f):
+                if (i, f) in special:
+                    vals[(i, f)] = special[(i, f)]
+                    return special[(i, f)]
+                return val0(i, f)
+
+            traj = fx.solution_trajectory(kind, val, t0=0, n=2)
+            model = MODEL_FOR[kind]
+            pps = PlanningProblemSolution(7, model, VehicleType.BMW_320i, SupportedCostFunctions[model.name].value[0], traj)
+            sol_ = Solution(ScenarioID.from_benchmark_id("USA_US101-33_2_T-1", "2020a"), [pps], None, None, None)
+            root, back = roundtrip(V, sol_, False)
+            tr = back.planning_problem_solutions[0].trajectory
+            parts = []
+            for (i, f), v in special.items():
+                s_ = tr.state_list[i]
+                got = s_.position[0] if f == "x" else s_.position[1] if f == "y" else getattr(s_, f)
+                parts.append(V.same(got, v))
+            V.prove("values of every magnitude are read back bit-identically", V.And(parts))
+        finally:
+            if keep is None:
+                sol_mod.__dict__.pop("str", None)
+            else:
+                sol_mod.str = keep
+
+    return ob
+
+
+for _k in ("KS", "PM"):
+    _mk_formatting(_k)
+
+
 @obligation("C14", "roundtrip.int-values", functions=F, bounds="KS trajectory whose velocity and steering angle are ints")
 def roundtrip_ints(V):
     warnings.filterwarnings("ignore")
